@@ -581,7 +581,7 @@ func localSignerCases(r *core.Run) {
 		}
 	}
 	// unsupported leaf keys
-	for _, k := range []string{"rsa1024", "rsa1536", "rsa2560", "rsa3584", "p224", "ed25519"} {
+	for _, k := range []string{"rsa1024", "rsa1536", "rsa2560", "rsa3584", "rsa2049", "rsa3073", "rsa4097", "p224", "ed25519"} {
 		r.Eval(1)
 		ch := pki.SimpleChain(k, 0, 2, "c16u")
 		if s, err := signature.NewLocalSigner(ch.Certs, ch.Keys[0].Priv); err == nil || s != nil {
